@@ -35,6 +35,17 @@ K  ways of calling: GetQueryMatches(m), (m, 0 | False | 1 | True), (m, debug=
    the same four), (mol=m), (mol=m, debug=True) - every form on every fragment
    of a 6108-fragment set x 18 hydrogen-rich molecules, each call compared with
    the reference (the debug flag may print, it may not change the result).
+
+Fifth wave (mc/domains/w5_c08.py), family L - rings larger than any number the
+language can write.  A constraint number is one digit; until now the largest
+ring of an enumerated molecule had 8 atoms and the ring digits stopped at 6.
+L: the ring vocabulary with ALL digits 0..9 (every ring-size / ring-count
+constraint, plain / negated, bare and with every operator, on C and $?; ring
+prefixes; cyclic/linear; bonded carbon pairs over {ring, nonring, single, any}
+with constraints on either atom; ordered constraint pairs; 3-atom chains)
+against EVERY saturated carbon system of one or two simple rings - cycloalkanes
+and methylcycloalkanes with 3..16 (thorough 3..20) ring atoms, and two rings of
+sizes 3 <= a <= b <= 10 (thorough 12) linked by a bond, spiro-joined, or fused.
 """
 import os
 
@@ -45,6 +56,7 @@ from ..domains import molecules as MD
 from ..domains import libs
 from ..domains import w3_c08 as W3
 from ..domains import w4_c08 as W4
+from ..domains import w5_c08 as W5
 
 LEVEL = 'exploration'
 CORE = ['C', 'CC', 'C=C', 'C#C', 'CO', 'C=O', 'CCO', 'CC=O', 'C1CC1', 'C1CO1',
@@ -85,14 +97,24 @@ BOUND = {
              'forms of GetQueryMatches (debug absent / 0 / False / 1 / True by position '
              'and keyword, molecule by keyword) x 6108 fragments (all of A; C {c} for all '
              '3144 constraints; all 1440 unconstrained two-atom fragments of C; 768 '
-             '3-atom topologies over {C?, $?}) x 18 molecules',
+             '3-atom topologies over {C?, $?}) x 18 molecules; '
+             'L: 998 large-ring fragments (2 atoms x 240 ring-size / ring-count '
+             'constraints with ALL digits 0..9; ring prefixes x 4 symbols; cyclic/linear '
+             'x 2 bodies; C-C over {ring, nonring, single, any} x (none | 8 constraints '
+             'around the largest digit)^2; 12^2 ordered constraint pairs on one atom; '
+             'C-C-C over {ring, nonring}^2 x 8 constraints on the middle atom) x 136 '
+             'molecules: every cycloalkane and methylcycloalkane with 3..16 ring atoms '
+             '(28) and every pair of rings 3 <= a <= b <= 10 linked by a bond, sharing '
+             'one atom (spiro) or sharing one bond (fused) (3 x 36)',
     'thorough': 'as quick with C x 40 constraints, D + 4-atom chains/stars/'
                 'squares, G on a 4000-fragment slice, molecules M(3) C/O/N with '
                 'radicals (full set) and a 150-molecule core; R: the same 1126 '
                 'fragments x all 462 saturated carbon skeletons with 1..7 atoms + '
                 'the named cages; S and K as quick; N: 312 stars (centres {C, $?, X} x '
                 'arms {H, C, $?, X}) x 45 molecules (22 alkanes with <= 7 carbons + 23 '
-                'curated)'}
+                'curated); L: 1254 fragments (quick\'s + C-C-C with one of 8 '
+                'constraints on each end atom, 4 x 64) x 201 molecules (monocycles 3..20, '
+                'ring pairs 3 <= a <= b <= 12)'}
 RULE = ('every fragment of the families x every molecule of the set is read '
         'and matched by the implementation and by the reference; compared is '
         'the sorted list of match tuples (duplicates significant).  An '
@@ -121,7 +143,10 @@ ASSUMPTIONS = ['RDKit ring perception (SSSR) defines "ring of size n" and "in n 
                'class, implementation and reference reader both call `Xe labeled a` a '
                'syntax error; lower-case `xe` can be written and is in the alphabet',
                'lower-case spelling of an element that RDKit never flags aromatic '
-               'denotes the empty set (element and aromatic flag are both required)']
+               'denotes the empty set (element and aromatic flag are both required)',
+               'ring sizes of the molecules reach 16 (thorough 20) atoms in single '
+               'rings and 10 (thorough 12) in two-ring systems; macrocycles with '
+               'hetero atoms, unsaturation or more than two rings are not enumerated']
 MANIFEST = dict(
     technique='bounded-exhaustive enumeration of the fragment language x small '
               'molecules vs an independent backtracking matcher',
@@ -143,7 +168,11 @@ MANIFEST = dict(
          'tens of thousands of tuples (beyond the 10000 raw matches the matcher '
          'asks for at first) are compared in full.  Every way of calling GetQueryMatches '
          '(debug flag absent / falsy / truthy, positional / keyword) must give '
-         'the reference result.',
+         'the reference result.  The ring vocabulary with every digit 0..9 is '
+         'matched against every saturated one- and two-ring carbon system '
+         '(single, linked, spiro, fused) with ring sizes 3..10 and single rings up '
+         'to 16 atoms (thorough 12 / 20), i.e. rings larger than any number the '
+         'language can write.',
     note='Fragments above 3-4 atoms and molecules above the enumeration bound '
          'only occur through the curated list and the shipped schemes.',
     ref='5/C08')
@@ -156,7 +185,7 @@ def molset(which, tier):
     if key in _MOLS:
         return _MOLS[key]
     from rdkit import Chem
-    plain = which in ('cage', 'elements', 'stars', 'calls')
+    plain = which in ('cage', 'elements', 'stars', 'calls', 'bigring')
     if which == 'cage':
         # every saturated carbon skeleton up to 6 (T: 7) atoms + named cages
         smis = W3.skeletons(6 if tier == 'quick' else 7) + W3.CAGES
@@ -171,6 +200,11 @@ def molset(which, tier):
             smis += W4.STAR_CURATED_T
     elif which == 'calls':
         smis = list(W4.CALL_MOLS)
+    elif which == 'bigring':
+        # every one- / two-ring saturated carbon system: ring pairs 3..10
+        # (T: 12), monocycles and methyl-monocycles 3..16 (T: 20)
+        smis = [s for _, s in (W5.ring_systems(10, 16) if tier == 'quick'
+                               else W5.ring_systems(12, 20))]
     elif which == 'core':
         smis = list(CORE)
         if tier == 'thorough':
@@ -457,6 +491,8 @@ def shards(tier, seed):
         out.append(('N', i, 13))
     for i in range(16):
         out.append(('K', i, 16))
+    for i in range(16 if tier == 'quick' else 32):
+        out.append(('L', i, 16 if tier == 'quick' else 32))
     return out
 
 
@@ -524,6 +560,9 @@ def run_shard(shard, tier):
     elif fam == 'K':
         for f in chunks(W4.call_fragments(), i, n):
             run_calls(R, F.render(f), molset('calls', tier))
+    elif fam == 'L':
+        for f in chunks(W5.big_ring_fragments(tier), i, n):
+            run_text(R, 'L', F.render(f), molset('bigring', tier))
     if R.evals and not R.samples:
         R.sample(dict(family=fam, shard=i))
     return R
